@@ -514,8 +514,9 @@ public:
   {
     // first deleting the node in the graph
     getGraph()->deleteNode(getNodeGraphid(nodeObject));
-    // then forgetting
-    dissociateNode(nodeObject);
+    // then forgetting (the graph has already warned its observers)
+    if (hasNode(nodeObject))
+      dissociateNode(nodeObject);
   }
 
 
